@@ -4,11 +4,11 @@
 
   * `hPush / hPop / hInit` mirror Go's container/heap (`up`, `down`, `Init`) on the heap array exactly, so that the pops the
     model performs on a heap array dumped from the running pool are the pops the Go code performs (ties included).
-  * Every heap operation is used through a *checked* wrapper (`pushC popC initC`): the result of the array algorithm is
-    accepted when it passes an executable check (same members; the popped element is a minimum), otherwise a trivially
-    correct list implementation is used and the `exact` flag of the structure is cleared.  The theorems about
-    Underpriced / Discard / Cap therefore hold for the executable model unconditionally, and a cleared flag — the array
-    algorithm or a dumped array was not a heap — is reported by the driver as a disagreement.
+  * The heap operations are the array algorithms themselves; that they keep the heap order, change the multiset by exactly
+    the pushed / popped element and pop a minimum is *proved* (Aqv.Lemmas.TxHeap), not checked.  The wrappers
+    `pushC popC initC` only add a monitor bit (same members; the popped element is a minimum) that is accumulated in the
+    `exact` flag and never influences a result: it is the driver's assertion, proved never to fire from a heap
+    (`priced_check_never_fires`); the driver reports a cleared flag or a dumped array that is not a heap as a disagreement.
   * `Put Removed Underpriced Discard Cap` follow the Go functions statement by statement.
   * The concrete machine `CPool` is the pool of Aqv.Model.TxPool together with a `Priced`; the bookkeeping calls
     (`priced.Put`, `delete(all, …); priced.Removed()`) are generated, in the order the Go code makes them, as *ledger events*
@@ -65,37 +65,27 @@ def hInit (l : List Tx) : List Tx := hInitLoop (l.length / 2) l
 def isHeap (l : List Tx) : Bool :=
   (List.range l.length).all (fun i => i == 0 || !hLess l i ((i - 1) / 2))
 
-/-! ## checked wrappers -/
+/-! ## the heap operations with the driver's monitor bit (never influences a result) -/
 
 def sameMembers (a b : List Tx) : Bool := a.length == b.length && a.all (fun x => decide (x ∈ b)) && b.all (fun x => decide (x ∈ a))
 
 def pushC (t : Tx) (l : List Tx) : List Tx × Bool :=
   let r := hPush t l
-  if sameMembers r (l ++ [t]) then (r, true) else (l ++ [t], false)
+  (r, sameMembers r (l ++ [t]))
 
 def initC (l : List Tx) : List Tx × Bool :=
   let r := hInit l
-  if sameMembers r l then (r, true) else (l, false)
-
-/-- first element of minimal price -/
-def listMin : List Tx → Option Tx
-  | [] => none
-  | x :: xs => match listMin xs with
-    | none => some x
-    | some m => if m.price < x.price then some m else some x
+  (r, sameMembers r l)
 
 /-- is (x, rest) a legal result of popping a minimum of `l`? -/
 def popOK (l : List Tx) (x : Tx) (rest : List Tx) : Bool :=
   decide (x ∈ l) && l.all (fun y => decide (x.price ≤ y.price)) && (rest.length + 1 == l.length) &&
   rest.all (fun y => decide (y ∈ l)) && l.all (fun y => decide (y = x) || decide (y ∈ rest))
 
+/-- heap.Pop with the monitor bit -/
 def popC (l : List Tx) : Option (Tx × List Tx × Bool) :=
   match hPop l with
-  | some (x, rest) =>
-    if popOK l x rest then some (x, rest, true)
-    else match listMin l with
-      | some m => some (m, l.erase m, false)
-      | none => none
+  | some (x, rest) => some (x, rest, popOK l x rest)
   | none => none
 
 /-! ## txPricedList -/
